@@ -139,7 +139,8 @@ def build_profile(jp):
     from votekit import PreferenceProfile
 
     ballots = tuple(build_ballot(b) for b in jp["ballots"])
-    if jp.get("candidates") is None:
+    if jp.get("candidates") is None or jp.get("infer"):
+        # candidates left to the profile to infer from the ballots (it goes through a set: listing order = hash order)
         return PreferenceProfile(ballots=ballots)
     return PreferenceProfile(ballots=ballots, candidates=tuple(jp["candidates"]))
 
